@@ -91,6 +91,29 @@ func runC19(r *vf.Run) {
 			c.RenderStyle("minimal", "\n")
 			return c
 		}},
+		wf{"prefix-related-headers", func() *gen.CSVFile {
+			// (round 6) header names that are prefixes of each other after normalisation, with fields that complete one
+			// name to the other: (tag,"s"+v) / (tags,v), (user,"_id"+v) / (user_id,v), and empty fields next to them. However
+			// column and value are combined into a key, different (column, value) pairs must stay different.
+			c := &gen.CSVFile{Header: []string{"Tag", "tags", "User", "user id", "t"}, Columns: []string{"tag", "tags", "user", "user_id", "t"}}
+			for i := 0; i < 240; i++ {
+				v := fmt.Sprint(i % 4)
+				rec := []string{"s" + v, fmt.Sprint((i / 4) % 3), "_id" + fmt.Sprint(i%5), fmt.Sprint((i / 5) % 4), "ag" + fmt.Sprint(i%3)}
+				switch i % 6 {
+				case 1:
+					rec[0], rec[1] = "s", ""
+				case 2:
+					rec[0], rec[1] = "", "s"
+				case 3:
+					rec[2], rec[3] = "_id", ""
+				case 4:
+					rec[4] = "ags" + fmt.Sprint(i%2)
+				}
+				c.Records = append(c.Records, rec)
+			}
+			c.Render()
+			return c
+		}},
 		wf{"all-fields-empty", func() *gen.CSVFile {
 			c := &gen.CSVFile{Header: []string{"a", "b", "c"}, Columns: []string{"a", "b", "c"}}
 			for i := 0; i < 30; i++ {
